@@ -1040,7 +1040,8 @@ def show_expr(e):
 # --------------------------------------------------------------------------------------------
 
 OPAQUE_LEAN = {"IoCursor": "IoCursor", "GCM": "GCM", "Address": "Octo.VmessAddrGen.Address", "BodyCodec": "AEADBodyCodec CM XR",
-               "ServerSession": "ServerSession", "ClientSession": "ClientSession", "DynSession": "DynSession", "W": "W"}
+               "ServerSession": "ServerSession", "ClientSession": "ClientSession", "DynSession": "DynSession", "W": "W",
+               "SocketAddr": "Octo.VmessAddrGen.SocketAddr"}
 CRATE_CONSTS = {("Aes128Gcm", "AeadCore", ("NonceSize", "USIZE")): 12, ("Aes128Gcm", "AeadCore", ("TagSize", "USIZE")): 16}
 SIZE_OF = {"u8": 1, "u16": 2, "u32": 4, "u64": 8, "usize": 8}
 
@@ -1202,7 +1203,7 @@ class Gen:
             return ("result", self.resolve_type(t.args[0], selfty))
         if name == "AEADBodyCodec":
             return "BodyCodec"
-        if name in ("ServerSession", "ClientSession", "Address"):
+        if name in ("ServerSession", "ClientSession", "Address", "SocketAddr"):
             return name
         if name == "Aes128Gcm":
             return "GCM"
@@ -1610,6 +1611,8 @@ EXT = [
     ("kdfn", "Usize → List UInt8 → List (List UInt8) → List UInt8", "`kdf::kdfn::<N>(key, path)`: first `N` bytes (zero-filled beyond 32)",
      ("kdf", None, "kdfn", "pub fn kdfn < const N : usize > ( key : & [ u8 ] , path : Vec < & [ u8 ] > ) -> [ u8 ; N ]")),
     ("gcm_new", "List UInt8 → RResult GCM", "`Aes128Gcm::new_from_slice(key)` (`Err(InvalidLength)` unless 16 bytes)", None),
+    ("gcm_encrypt", "GCM → List UInt8 → List UInt8 → List UInt8 → RResult (List UInt8)",
+     "`Aead::encrypt(&self, nonce, Payload { msg, aad })`: arguments (cipher, nonce, msg, aad); ciphertext ‖ tag", None),
     ("gcm_decrypt", "GCM → List UInt8 → List UInt8 → List UInt8 → RResult (List UInt8)",
      "`Aead::decrypt(&self, nonce, Payload { msg, aad })`: arguments (cipher, nonce, msg, aad)", None),
     ("gcm_decrypt_in_place", "GCM → List UInt8 → List UInt8 → List UInt8 → List UInt8 × RResult Unit",
@@ -1630,7 +1633,14 @@ EXT = [
      "`AEADBodyCodec::new_decoder(header, session)`: (final `*session`, result)",
      ("body", "AEADBodyCodec", "new_decoder", "pub fn new_decoder ( header : & RequestHeader , session : & mut dyn Session ) -> Result < Self , InvalidLength >")),
 ]
+EXT.append(("new_encoder", "RequestHeader → DynSession → DynSession × RResult (AEADBodyCodec CM XR)",
+            "`AEADBodyCodec::new_encoder(header, session)`: (final `*session`, result)",
+            ("body", "AEADBodyCodec", "new_encoder", "pub fn new_encoder ( header : & RequestHeader , session : & mut dyn Session ) -> Result < Self , InvalidLength >")))
 EXT_SIGS_IMPORTED = [
+    ("body", "AEADBodyCodec", "encode_payload",
+     "pub fn encode_payload ( & mut self , mut src : BytesMut , dst : & mut BytesMut , session : & mut dyn Session ) -> Result < ( ) , aead :: Error >"),
+    ("body", "AEADBodyCodec", "encode_packet",
+     "pub fn encode_packet ( & mut self , mut src : BytesMut , dst : & mut BytesMut , session : & mut dyn Session ) -> Result < ( ) , aead :: Error >"),
     ("body", "AEADBodyCodec", "decode_payload",
      "pub fn decode_payload ( & mut self , src : & mut BytesMut , session : & mut dyn Session ) -> Result < Option < BytesMut > , aead :: Error >"),
     ("body", "AEADBodyCodec", "decode_packet",
@@ -1646,7 +1656,7 @@ USE_SUFFIX = {
     "ServerSession": ["vmess", "session", "ServerSession"], "ClientSession": ["vmess", "session", "ClientSession"],
     "InboundIn": ["template", "message", "InboundIn"], "Bytes": ["bytes", "Bytes"], "BytesMut": ["bytes", "BytesMut"],
     "bail": ["anyhow", "bail"], "anyhow": ["anyhow", "anyhow"], "debug": ["log", "debug"], "info": ["log", "info"],
-    "size_of": ["mem", "size_of"], "Payload": ["aead", "Payload"],
+    "size_of": ["mem", "size_of"], "Payload": ["aead", "Payload"], "OutboundIn": ["template", "message", "OutboundIn"],
 }
 
 
@@ -1851,14 +1861,14 @@ class Gen2(Gen):
             self.require_use("ServerSession", e.line)
             a = self.args_of(e, [("bytes", 16), ("bytes", 16), "u8"], pre)
             return "(%s %s)" % (self.use_ext("server_session_new"), " ".join(a)), "ServerSession"
-        if q == "AEADBodyCodec" and name == "new_decoder" and len(e.args) == 2:
+        if q == "AEADBodyCodec" and name in ("new_decoder", "new_encoder") and len(e.args) == 2:
             self.require_use("AEADBodyCodec", e.line)
             h, hty = self.ex(e.args[0], pre)
             if hty != ("struct", "RequestHeader"):
-                raise Unsupported("`new_decoder`: first argument of type %s" % type_str(hty), e.line)
+                raise Unsupported("`%s`: first argument of type %s" % (name, type_str(hty)), e.line)
             sess = self.dyn_arg(e.args[1], pre)
             vs, vr = self.fresh(), self.fresh()
-            pre.append("Flow.bind (Flow.next (%s %s %s)) fun (%s, %s) =>" % (self.use_ext("new_decoder"), h, sess[0], vs, vr))
+            pre.append("Flow.bind (Flow.next (%s %s %s)) fun (%s, %s) =>" % (self.use_ext(name), h, sess[0], vs, vr))
             self.dyn_back(sess, vs, pre)
             return vr, ("result", "BodyCodec")
         # enum variant constructor
@@ -1995,7 +2005,10 @@ class Gen2(Gen):
                 raise Unsupported("`.%s()` on `%s`" % (name, type_str(ty)), e.line)
             return t, (("bytes", None) if name in ("to_vec", "freeze") else ty)
         if name == "into" and not e.args:
-            t, ty = self.ex(b, pre, want)
+            t, ty = self.ex(b, pre, None if (isinstance(want, tuple) and want[0] == "bytes") else want)
+            if ty == ("enum", "OutboundIn") and ("BytesMut", "From_OutboundIn_from") in self.fns:
+                self.require_use("OutboundIn", e.line)
+                return self.call_fn(self.fns[("BytesMut", "From_OutboundIn_from")], None, [b], pre, e.line)
             if not is_bytes(ty):
                 raise Unsupported("`.into()` on `%s`" % type_str(ty), e.line)
             return t, ty
@@ -2048,6 +2061,24 @@ class Gen2(Gen):
             pre.append("let %s : List UInt8 := %s.inner" % (o.lean, self.place_term(*cp)))
             self.rebind(o, pre)
             return self.buf_method(e, (o, []), o.ty, pre)
+        if bty == "BodyCodec" and name in ("encode_payload", "encode_packet") and len(e.args) == 3:
+            if not self.cur.effect:
+                raise Unsupported("internal: body encoder (random padding) in a function not marked as using the world", e.line)
+            item, ity = self.ex(e.args[0], pre, ("bytes", None))
+            dst = self.place_of(e.args[1])
+            if not is_bytes(ity) or dst is None or not is_bytes(self.place_type(dst[0], dst[1], e.line)):
+                raise Unsupported("`%s`: arguments" % name, e.line)
+            sess = self.dyn_arg(e.args[2], pre)
+            nd, ndst, vs, vr = self.bind_place(*p), self.bind_place(*dst), self.fresh(), self.fresh()
+            pre.append("Flow.bind (Flow.call (Octo.VmessBodyGen.AEADBodyCodec.%s X.body ov %s w_ %s %s %s)) fun (%s, w_, %s, %s, %s) =>"
+                       % (name, self.place_term(*p), item, self.place_term(*dst), sess[0], nd, ndst, vs, vr))
+            self.log.add(self.w_var)
+            self.ext_used.add("body")
+            self.imported.add(name)
+            self.write_place(p[0], p[1], nd, pre)
+            self.write_place(dst[0], dst[1], ndst, pre)
+            self.dyn_back(sess, vs, pre)
+            return vr, ("result", "unit")
         if p is not None and bty == "IoCursor":
             return self.io_method(e, p, pre)
         # value receivers
@@ -2084,7 +2115,7 @@ class Gen2(Gen):
                 return v, ty[1]
             if name in ("is_some", "is_none") and not e.args:
                 return "(Option.%s %s)" % ("isSome" if name == "is_some" else "isNone", t), "bool"
-        if ty == "GCM" and name == "decrypt" and len(e.args) == 2 and e.args[1].kind == "structlit" and e.args[1].segs[-1] == "Payload":
+        if ty == "GCM" and name in ("decrypt", "encrypt") and len(e.args) == 2 and e.args[1].kind == "structlit" and e.args[1].segs[-1] == "Payload":
             self.require_use("Payload", e.line)
             fl = dict(e.args[1].fields)
             if set(fl) != {"msg", "aad"}:
@@ -2094,7 +2125,7 @@ class Gen2(Gen):
             a, aty = self.ex(fl["aad"], pre, ("bytes", None))
             if not (is_bytes(mty) and is_bytes(aty)):
                 raise Unsupported("`Payload` fields", e.line)
-            return "(%s %s %s %s %s)" % (self.use_ext("gcm_decrypt"), t, n, m, a), ("result", ("bytes", None))
+            return "(%s %s %s %s %s)" % (self.use_ext("gcm_" + name), t, n, m, a), ("result", ("bytes", None))
         if ty == "GCM" and name == "decrypt_in_place" and len(e.args) == 3:
             n, _ = self.ex(e.args[0], pre, ("bytes", None))
             a, aty = self.ex(e.args[1], pre, ("bytes", 0))
@@ -2533,13 +2564,25 @@ class Gen3(Gen2):
             if len(p.subs) != len(ftys):
                 raise Unsupported("pattern `%s`: field count" % show_pat(p), line)
         vars_ = []
+        texts = []
         for sp, fty in zip(p.subs, ftys):
             if sp.kind == "pwild":
                 vars_.append(self.declare("_", fty))
+                texts.append(vars_[-1].lean)
             elif sp.kind == "pbind":
                 vars_.append(self.declare(sp.name, fty))
+                texts.append(vars_[-1].lean)
+            elif sp.kind == "ptuple" and isinstance(fty, tuple) and fty[0] == "tuple" and len(fty[1]) == len(sp.subs) \
+                    and all(x.kind in ("pbind", "pwild") and getattr(x, "byref", None) is None for x in sp.subs):
+                inner = [self.declare(x.name if x.kind == "pbind" else "_", t).lean for x, t in zip(sp.subs, fty[1])]
+                texts.append("(%s)" % ", ".join(inner))
+                vars_.append(None)
             else:
                 raise Unsupported("nested pattern `%s`" % show_pat(sp), line)
+        if any(v is None for v in vars_):
+            if any(sp.kind == "pbind" and sp.byref == "mut" for sp in p.subs):
+                raise Unsupported("`ref mut` next to a tuple pattern", line)
+            return "%s %s" % (full, " ".join(texts)), []
         if any(sp.kind == "pbind" and sp.byref == "mut" for sp in p.subs):
             if place is None:
                 raise Unsupported("`ref mut` binding into something that is not a place", line)
@@ -2770,7 +2813,8 @@ ROLES = [
 ]
 WANT = {
     "server": {"enum": {"DecodeState", "EncodeState"}, "struct": {"ServerAeadCodec"}, "const": set(),
-               "fn": {("ServerAeadCodec", None, "decode_header"), ("ServerAeadCodec", None, "decode_body"), ("ServerAeadCodec", "Decoder", "decode")}},
+               "fn": {("ServerAeadCodec", None, "decode_header"), ("ServerAeadCodec", None, "decode_body"), ("ServerAeadCodec", "Decoder", "decode"),
+                      ("ServerAeadCodec", None, "encode"), ("ServerAeadCodec", "Encoder_OutboundIn", "encode")}},
     "client": {"enum": set(), "struct": {"ClientAEADCodec"}, "const": set(), "fn": {("ClientAEADCodec", "Decoder", "decode")}},
     "authid": {"enum": set(), "struct": set(), "const": set(), "fn": {(None, None, "matching")}},
     "encrypt": {"enum": set(), "struct": set(), "const": {"NONCE_SIZE", "TAG_SIZE"}, "fn": {(None, None, "open_header")}},
@@ -2778,7 +2822,7 @@ WANT = {
                "fn": {("RequestOption", None, "values"), ("RequestOption", None, "from_mask"), ("RequestOption", None, "get_mask"),
                       ("SecurityType", "From_u8", "from"), ("RequestHeader", None, "new")}},
     "kdf": {"enum": set(), "struct": set(), "const": "SALT", "fn": set()},
-    "message": {"enum": {"InboundIn"}, "struct": set(), "const": set(), "fn": set()},
+    "message": {"enum": {"InboundIn", "OutboundIn"}, "struct": set(), "const": set(), "fn": {("BytesMut", "From_OutboundIn", "from")}},
 }
 
 
@@ -2861,6 +2905,8 @@ def reads_clock(f):
     def walk(n):
         if isinstance(n, Node):
             if n.kind == "call" and n.segs[-2:] == ["vmess", "now"]:
+                hit.append(1)
+            if n.kind == "mcall" and n.name in ("encode_payload", "encode_packet"):     # random padding of the body encoder
                 hit.append(1)
             for v in n.__dict__.values():
                 walk(v)
@@ -2987,13 +3033,13 @@ def translate(path, out_path):
         raise Unsupported("no `SALT_*` constant found in kdf.rs", 0)
     # -- functions
     order = []
-    for role in ("header", "authid", "encrypt", "server", "client"):
+    for role in ("header", "message", "authid", "encrypt", "server", "client"):
         p, _, fp, module = parsers[role]
         for it in p.items:
             if it.kind != "fn":
                 continue
             if it.owner:
-                selfty = ("enum", it.owner) if it.owner in g.enums else ("struct", it.owner)
+                selfty = ("enum", it.owner) if it.owner in g.enums else (("bytes", None) if it.owner in ("BytesMut", "Bytes") else ("struct", it.owner))
                 key = (it.owner, (it.trait + "_" + it.name) if it.trait else it.name)
                 lean = "%s.%s" % key
             else:
